@@ -17,6 +17,7 @@ use std::process::Command;
 use std::time::Duration;
 
 mod consumer;
+mod llvmtree;
 
 const PROFDATA_STUB: &str = r#"#!/bin/sh
 # recording stand-in for llvm-profdata: logs argv and, for every path listed on stdin, the id
@@ -385,6 +386,7 @@ pub fn run(rep: &mut Report) {
     llvm_half(rep, &mut rng);
     gcc_half(rep, &mut rng);
     consumer::run(rep);
+    llvmtree::run(rep);
 }
 
 pub fn replay(rep: &mut Report, _case: &serde_json::Value) {
